@@ -16,6 +16,7 @@ package c14
 import (
 	"encoding/json"
 	"fmt"
+	"hash/fnv"
 	"net"
 	"os"
 	"runtime"
@@ -130,13 +131,12 @@ func makeTraffic(name string, horizon time.Duration) traffic {
 			every(&tr.Peer, peerPhase, time.Minute, p)
 		}
 	case "newpeer": // a single write to a peer never used before every 7 minutes
-		for t := appPhase; t <= horizon; t += 7 * time.Minute {
-			p := npeers
-			npeers++
-			if p >= 2 {
-				p++ // skip the same-IP peer: every new peer needs a new permission
-				npeers = p + 1
+		for j, t := 0, appPhase; t <= horizon; j, t = j+1, t+7*time.Minute {
+			p := j
+			if j >= 2 {
+				p = j + 1 // skip the same-IP peer: every new peer needs a new permission
 			}
+			npeers = p + 1
 			tr.App = append(tr.App, tev{t, p})
 			every(&tr.Peer, t-appPhase+peerPhase, time.Minute, p)
 		}
@@ -361,6 +361,11 @@ func (f *filterConn) ReadFrom(p []byte) (int, net.Addr, error) {
 		if !ok || (m.Class != wire.Success && m.Class != wire.Error) {
 			return n, from, nil
 		}
+		// Responses travel for 1 ns of virtual time: every client goroutine that is runnable at this instant has
+		// then sent its request before the client sees any answer. This fixes the one order-dependent choice of
+		// the client (which of several same-instant transactions still carries the old nonce when a 438 arrives:
+		// all of them) and thereby makes the set of transactions of a run reproducible.
+		time.Sleep(time.Nanosecond)
 		f.mu.Lock()
 		ti := f.byTx[m.TxID]
 		if ti == nil {
@@ -418,6 +423,19 @@ func (t *txInfo) permIPs() []string {
 	j := strings.Index(t.ID[i:], "]")
 
 	return strings.Split(t.ID[i+4:i+j], ",")
+}
+
+// answerOf reports the first response the client got for a transaction ("none" if it got none).
+func (f *filterConn) answerOf(id string) string {
+	f.mu.Lock()
+	defer f.mu.Unlock()
+	for _, ti := range f.order {
+		if ti.ID == id && ti.Resp != "" {
+			return ti.Resp
+		}
+	}
+
+	return "none"
 }
 
 func (f *filterConn) Close() error                       { return f.sock.Close() }
@@ -756,10 +774,10 @@ func runOnce(t *testing.T, sc scenario) (res *runResult) { //nolint:gocognit,cyc
 		case cerr != nil:
 			add("close-returned-error", cerr.Error())
 		case !closeTxHit && (res.CountAtClose != 0 || openAtClose):
-			add("allocation-survives-close", fmt.Sprintf("after relayConn.Close() at %.2fs and quiescence: AllocationCount=%d relay socket open=%v; 10 s later: AllocationCount=%d",
+			add("allocation-survives-close:refresh0-answer="+fc.answerOf("Refresh0#1"), fmt.Sprintf("after relayConn.Close() at %.2fs and quiescence: AllocationCount=%d relay socket open=%v; 10 s later: AllocationCount=%d",
 				closeAt.Seconds(), res.CountAtClose, openAtClose, res.CountLater))
 		case closeTxHit && (res.CountLater != 0 || relayOpen()):
-			add("allocation-survives-close", fmt.Sprintf("Refresh(0) lost its first transmissions; 10 s after Close: AllocationCount=%d relay socket open=%v",
+			add("allocation-survives-close:refresh0-answer="+fc.answerOf("Refresh0#1"), fmt.Sprintf("Refresh(0) lost its first transmissions; 10 s after Close: AllocationCount=%d relay socket open=%v",
 				res.CountLater, relayOpen()))
 		}
 
@@ -773,6 +791,15 @@ func runOnce(t *testing.T, sc scenario) (res *runResult) { //nolint:gocognit,cyc
 
 		// ---- transaction / log oracle
 		fc.mu.Lock()
+		// canonical order: same-instant transactions are written by unordered goroutines
+		sort.SliceStable(fc.order, func(i, j int) bool {
+			a, b := fc.order[i], fc.order[j]
+			if at, bt := a.At.Round(time.Millisecond), b.At.Round(time.Millisecond); at != bt {
+				return at < bt
+			}
+
+			return a.ID < b.ID
+		})
 		for _, ti := range fc.order {
 			res.Txs = append(res.Txs, txRec{ti.ID, ti.Kind, ti.At.Seconds(), ti.Sent, ti.Resp})
 			if ti.Kind != "Refresh0" && ti.Got == 0 && ti.At < closeAt-8*time.Second {
@@ -824,18 +851,9 @@ func txKindOf(id string) string {
 	return id
 }
 
-// firstDeviations lists every single deviation of a run: for every transaction, drop the first k=1..6
-// transmissions, and drop / duplicate / delay the response to its (only) transmission.
-func firstDeviations(txs []txRec) []deviation {
-	var out []deviation
-	for _, tx := range txs {
-		out = append(out, laterDeviations(tx)...)
-	}
-
-	return out
-}
-
-func laterDeviations(tx txRec) []deviation {
+// The deviation alphabet on one transaction whose fault-free course is a single transmission: drop the first
+// k=1..6 transmissions, and drop / duplicate / delay the response to the transmission that gets through.
+func fullAlphabet(tx txRec) []deviation {
 	var out []deviation
 	for k := 1; k <= 6; k++ {
 		out = append(out, deviation{Tx: tx.ID, Kind: "dropreq", K: k, AtS: tx.AtS})
@@ -847,36 +865,69 @@ func laterDeviations(tx txRec) []deviation {
 	return out
 }
 
-// secondDeviations lists the deviations that can follow d1, given the run with d1 alone: every deviation of every
-// transaction that started after d1's transaction, plus, on d1's own transaction, the three response deviations
-// applied to the response of its last transmission (the one that got through).
-func secondDeviations(d1 deviation, txs []txRec) []deviation {
+// extremeAlphabet keeps the shortest and the longest request loss (0.2 s and 6.2 s of delay) and the three
+// response deviations; used for pairs of deviations on two different transactions.
+func extremeAlphabet(tx txRec) []deviation {
 	var out []deviation
-	pos := -1
-	for i, tx := range txs {
-		if tx.ID == d1.Tx {
-			pos = i
-
-			break
+	for _, d := range fullAlphabet(tx) {
+		if d.Kind != "dropreq" || d.K == 1 || d.K == 6 {
+			out = append(out, d)
 		}
-	}
-	if pos < 0 {
-		return nil
-	}
-	if n := txs[pos].Sent; n <= 6 && (d1.Kind == "dropreq" || n > d1.K) {
-		for _, kind := range []string{"dropresp", "dup", "delay"} {
-			out = append(out, deviation{Tx: d1.Tx, Kind: kind, K: n, AtS: txs[pos].AtS})
-		}
-	}
-	for _, tx := range txs[pos+1:] {
-		out = append(out, laterDeviations(tx)...)
 	}
 
 	return out
 }
 
+func allDeviations(txs []txRec, alpha func(txRec) []deviation) []deviation {
+	var out []deviation
+	for _, tx := range txs {
+		out = append(out, alpha(tx)...)
+	}
+
+	return out
+}
+
+func position(txs []txRec, id string) int {
+	for i, tx := range txs {
+		if tx.ID == id {
+			return i
+		}
+	}
+
+	return -1
+}
+
+// sameTxSeconds: given the run with d1 alone, the second deviations on d1's own transaction: the three response
+// deviations applied to the response of its last transmission (the one that got through, or the stray one).
+func sameTxSeconds(d1 deviation, txs []txRec) []deviation {
+	pos := position(txs, d1.Tx)
+	if pos < 0 {
+		return nil
+	}
+	var out []deviation
+	if n := txs[pos].Sent; n <= 6 && (d1.Kind == "dropreq" || n > d1.K) {
+		for _, kind := range []string{"dropresp", "dup", "delay"} {
+			out = append(out, deviation{Tx: d1.Tx, Kind: kind, K: n, AtS: txs[pos].AtS})
+		}
+	}
+
+	return out
+}
+
+// laterTxSeconds: every deviation of alpha on every transaction that starts after d1's transaction in the run
+// with d1 alone (canonical order), so that every unordered pair of transactions is taken exactly once.
+func laterTxSeconds(d1 deviation, txs []txRec, alpha func(txRec) []deviation) []deviation {
+	pos := position(txs, d1.Tx)
+	if pos < 0 {
+		return nil
+	}
+
+	return allDeviations(txs[pos+1:], alpha)
+}
+
 type tally struct {
-	classes map[string]int64
+	classes    map[string]int64
+	notReached int
 }
 
 func (r *runResult) allApplied() bool {
@@ -912,12 +963,16 @@ func judge(r *rep.Report, tl *tally, sc scenario, res *runResult, part string) {
 		return
 	}
 	if !res.allApplied() {
+		tl.notReached++
 		tl.classes[fmt.Sprintf("%s cfg=%s traffic=%s %s => deviation-not-reached", part, sc.Cfg.Name, sc.Pattern, after)]++
+		if tl.notReached <= 3 {
+			r.Note("deviation target never occurred: cfg=%s traffic=%s %v applied=%v", sc.Cfg.Name, sc.Pattern, sc.Devs, res.Applied)
+		}
 	}
 	tl.classes[fmt.Sprintf("%s cfg=%s traffic=%s %s => %s", part, sc.Cfg.Name, sc.Pattern, after, res.Outcome)]++
 	for _, f := range res.Findings {
 		sig := f.Sig
-		if len(sc.Devs) > 0 || part == "faults" {
+		if part != "close" {
 			sig += ":after=" + after
 		}
 		r.Violate(rep.Violation{Oracle: "c14-" + part, Signature: sig,
@@ -926,19 +981,33 @@ func judge(r *rep.Report, tl *tally, sc scenario, res *runResult, part string) {
 	}
 }
 
+func (tl *tally) flush(r *rep.Report) {
+	for k, v := range tl.classes {
+		r.Classes[k] += v
+	}
+	if tl.notReached > 0 {
+		r.Exhaustive = false
+		if r.Capped == "" {
+			r.Capped = fmt.Sprintf("%d schedules named a transaction that did not occur in their run (run-to-run nondeterminism)", tl.notReached)
+		}
+	}
+}
+
 type combo struct {
 	cfg srvCfg
 	pat string
 }
 
-func combos(quick bool) []combo {
+func combos(patterns ...string) []combo {
+	if len(patterns) == 0 {
+		patterns = patternNames()
+	}
 	var out []combo
-	for _, p := range patternNames() {
+	for _, p := range patterns {
 		for _, c := range configs() {
 			out = append(out, combo{c, p})
 		}
 	}
-	_ = quick
 
 	return out
 }
@@ -959,12 +1028,14 @@ func replay(t *testing.T, r *rep.Report) bool {
 		t.Fatalf("replay: %v", err)
 	}
 	res := runOnce(t, in.Scenario)
-	tl := &tally{map[string]int64{}}
+	tl := &tally{classes: map[string]int64{}}
 	judge(r, tl, in.Scenario, res, "replay")
-	r.Sample(map[string]any{"scenario": in.Scenario, "outcome": res.Outcome, "transactions": txStrings(res.Txs), "client_log": res.Warns,
-		"count_at_close": res.CountAtClose, "count_10s_later": res.CountLater})
-	for k, v := range tl.classes {
-		r.Classes[k] += v
+	tl.flush(r)
+	out := map[string]any{"scenario": in.Scenario, "outcome": res.Outcome, "transactions": txStrings(res.Txs), "client_log": res.Warns,
+		"count_at_close": res.CountAtClose, "count_10s_later": res.CountLater, "findings": fmt.Sprint(res.Findings)}
+	r.Sample(out)
+	if js, err := json.MarshalIndent(out, "", " "); err == nil {
+		fmt.Println(string(js))
 	}
 
 	return true
@@ -979,80 +1050,127 @@ func txStrings(txs []txRec) []string {
 	return out
 }
 
-// TestC14Faults: configurations x traffic patterns x all loss schedules with at most D deviations.
-func TestC14Faults(t *testing.T) { //nolint:gocognit,cyclop
-	runtime.GOMAXPROCS(1) // one bubble at a time anyway; keeps same-instant goroutine order reproducible between runs
+func owner(shard, nsh int) func(string) bool {
+	return func(key string) bool {
+		h := fnv.New32a()
+		_, _ = h.Write([]byte(key))
+
+		return int(h.Sum32()%uint32(nsh)) == shard //nolint:gosec
+	}
+}
+
+// TestC14Faults: configurations x traffic patterns x every single deviation (D = 1) on every transaction of the
+// fault-free run; 75 minutes of protocol time in the quick tier, 3 hours in the thorough tier.
+func TestC14Faults(t *testing.T) {
+	runtime.GOMAXPROCS(1) // one bubble at a time anyway
 	r := rep.New("C14")
 	defer r.Write()
 	if replay(t, r) {
 		return
 	}
 	shard, nsh := rep.Shard()
-	tl := &tally{map[string]int64{}}
-	defer func() {
-		for k, v := range tl.classes {
-			r.Classes[k] += v
-		}
-	}()
-	type plan struct {
-		name    string
-		horizon time.Duration
-		depth   int
-	}
-	plans := []plan{{"D1/75min", 75 * time.Minute, 1}}
+	mine := owner(shard, nsh)
+	tl := &tally{classes: map[string]int64{}}
+	defer tl.flush(r)
+	name, horizon := "D1/75min", 75*time.Minute
 	if rep.Thorough() {
-		plans = []plan{{"D1/3h", 3 * time.Hour, 1}, {"D2/75min", 75 * time.Minute, 2}}
+		name, horizon = "D1/3h", 3*time.Hour
 	}
-	r.Bound = plans[len(plans)-1].depth
-	idx := 0
-	for _, pl := range plans {
-		for _, cb := range combos(!rep.Thorough()) {
-			base := scenario{Cfg: cb.cfg, Pattern: cb.pat, Horizon: pl.horizon}
-			rep.Current(base)
-			b := runOnce(t, base)
-			if idx%nsh == shard {
-				judge(r, tl, base, b, "faults")
-				if cb.cfg.Name == configs()[0].Name {
-					r.Sample(map[string]any{"plan": pl.name, "cfg": cb.cfg.Name, "traffic": cb.pat, "fault_free_outcome": b.Outcome,
-						"probes_c2p": b.SentC2P, "probes_p2c": b.SentP2C, "transactions": txStrings(b.Txs)})
-				}
+	r.Bound = 1
+	for _, cb := range combos() {
+		base := scenario{Cfg: cb.cfg, Pattern: cb.pat, Horizon: horizon}
+		key := name + "|" + cb.cfg.Name + "|" + cb.pat + "|"
+		rep.Current(base)
+		b := runOnce(t, base)
+		if mine(key) {
+			judge(r, tl, base, b, "faults")
+			r.Extra[fmt.Sprintf("transactions %s cfg=%s traffic=%s", name, cb.cfg.Name, cb.pat)] = len(b.Txs)
+			if cb.cfg.Name == configs()[0].Name {
+				r.Sample(map[string]any{"plan": name, "cfg": cb.cfg.Name, "traffic": cb.pat, "fault_free_outcome": b.Outcome,
+					"probes_c2p": b.SentC2P, "probes_p2c": b.SentP2C, "transactions": txStrings(b.Txs)})
 			}
-			idx++
-			r.Extra[fmt.Sprintf("transactions %s cfg=%s traffic=%s", pl.name, cb.cfg.Name, cb.pat)] = len(b.Txs)
-			for _, d1 := range firstDeviations(b.Txs) {
-				idx++
-				if idx%nsh != shard {
-					continue
-				}
-				if r.OverBudget("c14 fault schedules") {
+		}
+		for _, d1 := range allDeviations(b.Txs, fullAlphabet) {
+			if !mine(key + d1.String()) {
+				continue
+			}
+			if r.OverBudget("c14 single deviations") {
+				return
+			}
+			s1 := base
+			s1.Devs = []deviation{d1}
+			rep.Current(s1)
+			r.Schedules++
+			judge(r, tl, s1, runOnce(t, s1), "faults")
+		}
+	}
+}
+
+// TestC14Pairs: D = 2 over 75 minutes.
+//
+//	(a) both deviations on the same transaction: for every configuration x pattern x transaction x first
+//	    deviation of the full alphabet, each response deviation on the transmission that gets through
+//	    (e.g. drop 5 requests, then the answer to the 6th: only the 7th and last transmission succeeds);
+//	(b) thorough only: deviations on two different transactions, every unordered pair of transactions of the
+//	    run x the extreme alphabet {drop 1, drop 6, drop/duplicate/delay response} on each, for
+//	    3 configurations x {idle, both10, burst}. The second transaction ranges over the transactions of the
+//	    run WITH the first deviation, not of the fault-free run.
+func TestC14Pairs(t *testing.T) { //nolint:gocognit,cyclop
+	runtime.GOMAXPROCS(1)
+	r := rep.New("C14")
+	defer r.Write()
+	if replay(t, r) {
+		return
+	}
+	shard, nsh := rep.Shard()
+	mine := owner(shard, nsh)
+	tl := &tally{classes: map[string]int64{}}
+	defer tl.flush(r)
+	horizon := 75 * time.Minute
+	r.Bound = 2
+	cross := map[string]bool{}
+	if rep.Thorough() {
+		cross = map[string]bool{"idle": true, "both10": true, "burst": true}
+	}
+	isExtreme := func(d deviation) bool { return d.Kind != "dropreq" || d.K == 1 || d.K == 6 }
+	for _, cb := range combos() {
+		base := scenario{Cfg: cb.cfg, Pattern: cb.pat, Horizon: horizon}
+		key := "D2/75min|" + cb.cfg.Name + "|" + cb.pat + "|"
+		rep.Current(base)
+		b := runOnce(t, base)
+		for _, d1 := range allDeviations(b.Txs, fullAlphabet) {
+			if !mine(key + d1.String()) {
+				continue
+			}
+			s1 := base
+			s1.Devs = []deviation{d1}
+			rep.Current(s1)
+			r1 := runOnce(t, s1) // judged by TestC14Faults; here it only supplies the transactions that follow d1
+			if !r1.allApplied() {
+				tl.notReached++
+
+				continue
+			}
+			seconds := sameTxSeconds(d1, r1.Txs)
+			if cross[cb.pat] && isExtreme(d1) {
+				seconds = append(seconds, laterTxSeconds(d1, r1.Txs, extremeAlphabet)...)
+			}
+			for _, d2 := range seconds {
+				if r.OverBudget("c14 pairs of deviations") {
 					return
 				}
-				s1 := base
-				s1.Devs = []deviation{d1}
-				rep.Current(s1)
-				r1 := runOnce(t, s1)
+				s2 := base
+				s2.Devs = []deviation{d1, d2}
+				rep.Current(s2)
 				r.Schedules++
-				judge(r, tl, s1, r1, "faults")
-				if pl.depth < 2 || !r1.allApplied() {
-					continue
-				}
-				for _, d2 := range secondDeviations(d1, r1.Txs) {
-					if r.OverBudget("c14 fault schedules (pairs)") {
-						return
-					}
-					s2 := base
-					s2.Devs = []deviation{d1, d2}
-					rep.Current(s2)
-					r2 := runOnce(t, s2)
-					r.Schedules++
-					judge(r, tl, s2, r2, "faults")
-				}
+				judge(r, tl, s2, runOnce(t, s2), "pairs")
 			}
 		}
 	}
 }
 
-// TestC14Close: fault-free runs closed at every instant of a grid ("for any duration ... Close releases it").
+// TestC14Close: fault-free runs closed at every instant of a grid ("for any duration ... Close releases it"):
+// every 10 s up to 75 min (quick), every 5 s up to 3 h (thorough), for every configuration x pattern.
 func TestC14Close(t *testing.T) {
 	runtime.GOMAXPROCS(1)
 	r := rep.New("C14")
@@ -1061,21 +1179,15 @@ func TestC14Close(t *testing.T) {
 		return
 	}
 	shard, nsh := rep.Shard()
-	tl := &tally{map[string]int64{}}
-	defer func() {
-		for k, v := range tl.classes {
-			r.Classes[k] += v
-		}
-	}()
-	horizon, step := 75*time.Minute, 30*time.Second
-	cbs := []combo{{configs()[0], "idle"}, {configs()[0], "both60"}, {configs()[1], "idle"}}
+	tl := &tally{classes: map[string]int64{}}
+	defer tl.flush(r)
+	horizon, step := 75*time.Minute, 10*time.Second
 	if rep.Thorough() {
-		horizon, step = 3*time.Hour, 10*time.Second
-		cbs = combos(false)
+		horizon, step = 3*time.Hour, 5*time.Second
 	}
 	idx := 0
-	for c := 7*time.Second + 350*time.Millisecond; c <= horizon+step; c += step {
-		for _, cb := range cbs {
+	for c := 2*time.Second + 350*time.Millisecond; c <= horizon+step; c += step {
+		for _, cb := range combos() {
 			idx++
 			if idx%nsh != shard {
 				continue
@@ -1088,7 +1200,7 @@ func TestC14Close(t *testing.T) {
 			res := runOnce(t, sc)
 			before := len(tl.classes)
 			judge(r, tl, sc, res, "close")
-			if len(res.Findings) > 0 && len(tl.classes) > before {
+			if len(tl.classes) > before && strings.Contains(res.Outcome, "survives") {
 				r.Sample(map[string]any{"close_at_s": c.Seconds(), "cfg": cb.cfg.Name, "traffic": cb.pat, "outcome": res.Outcome,
 					"count_at_close": res.CountAtClose, "count_10s_later": res.CountLater, "last_transactions": tail(txStrings(res.Txs), 6)})
 			}
